@@ -5,3 +5,4 @@ props="$@"; [ -z "$props" ] && props="C01 C02 C03 C04 C05 C06 C07 C08 C09 C10 C1
 git -C /repo apply "$p" || exit 2
 for q in $props; do ./check $q quick 2>&1 | grep -v "^KNOWN-FINDING" | cut -c1-220 | head -3; done
 git -C /repo checkout -- .; git -C /repo clean -fdq
+./regen.sh
